@@ -149,6 +149,8 @@ type runner struct {
 	handle []map[string]int // per mailbox: id -> latest handle number
 	wr     [][]written      // per mailbox, per handle
 	mode   string
+	nadds  int
+	target string // deliver mode: mailbox the BeforeMessageStored listener routes to
 }
 
 func (r *runner) resolve(mb int, h string) string {
@@ -281,10 +283,8 @@ func (r *runner) evTokens(sortDeleted bool) string {
 }
 
 func (r *runner) add(mb int, date int64, size int) string {
-	tag := 0
-	for _, w := range r.wr {
-		tag += len(w)
-	}
+	tag := r.nadds
+	r.nadds++
 	subject, from, to, src := content(tag, size)
 	k := len(r.ids[mb])
 	var id string
@@ -292,21 +292,20 @@ func (r *runner) add(mb int, date int64, size int) string {
 	w := written{mb: mb, date: date, size: len(src), subject: subject, from: from, to: to, body: src}
 	if r.mode == "deliver" {
 		// The real delivery path: StoreManager.Deliver -> AddMessage -> AfterMessageStored.
-		// It prepends Return-Path and Received lines, sized below.
-		w.date = time.Now().Unix()
+		// Deliver prepends a Return-Path and a Received line; <size> is the size of what is
+		// stored, so the source handed to Deliver is shorter by their (fixed) length.
 		recvd := "from verif"
-		stamp := "Mon, 02 Jan 2006 15:04:05 -0700 (MST)"
+		stamp := time.Now().UTC().Format("Mon, 02 Jan 2006 15:04:05 -0700 (MST)")
 		pre := len(fmt.Sprintf("Return-Path: <%s>\r\n", from)) + len(fmt.Sprintf("%s  for <%s>; %s\r\n", recvd, r.names[mb], stamp))
-		_ = pre
-		// register a placeholder handle before the call: events name the id
+		subject, from, to, src = content(tag, size-pre)
+		w = written{mb: mb, date: time.Now().Unix(), size: len(src) + pre, subject: subject, from: from, to: to, body: src}
 		origin := &policy.Origin{Address: mail.Address{Address: from}}
-		rcpt := &policy.Recipient{Address: mail.Address{Address: to}, Mailbox: r.names[mb]}
-		// content the store must hold = prefix lines + src; rebuilt after the call from the stored message
-		before, _ := r.store.GetMessages(r.names[mb])
-		known := map[string]bool{}
-		for _, m := range before {
-			known[m.ID()] = true
+		rcpt, rerr := r.mgr.AddrPolicy.NewRecipient("rcpt@example.net")
+		if rerr != nil {
+			return "A" + strconv.Itoa(k) + ":Erecipient"
 		}
+		// the mailbox is chosen by a BeforeMessageStored listener (any name can be a target)
+		r.target = r.names[mb]
 		err = r.mgr.Deliver(origin, []*policy.Recipient{rcpt}, recvd, src)
 		if err == nil {
 			// the id is only visible through the stored event
@@ -475,9 +474,14 @@ func Exec(kind string, in []string) []string {
 	}
 	r := &runner{store: store, host: host, log: log, mode: mode, nameI: map[string]int{}}
 	r.mgr = &message.StoreManager{
-		AddrPolicy: &policy.Addressing{Config: &config.Root{}},
+		AddrPolicy: &policy.Addressing{Config: &config.Root{MailboxNaming: config.LocalNaming}},
 		Store:      store, ExtHost: host,
 	}
+	host.Events.BeforeMessageStored.AddListener("verif", func(im event.InboundMessage) *event.InboundMessage {
+		im.Mailboxes = []string{r.target}
+		return &im
+	})
+	r.mode = strings.TrimSuffix(mode, "+o")
 	for i, n := range strings.Split(in[3], ",") {
 		name := vh.US(n)
 		r.names = append(r.names, name)
